@@ -1,0 +1,36 @@
+// Copyright 2021-2022 Buf Technologies, Inc.
+//
+// Licensed under the Apache License, Version 2.0 (the "License");
+// you may not use this file except in compliance with the License.
+// You may obtain a copy of the License at
+//
+//      http://www.apache.org/licenses/LICENSE-2.0
+//
+// Unless required by applicable law or agreed to in writing, software
+// distributed under the License is distributed on an "AS IS" BASIS,
+// WITHOUT WARRANTIES OR CONDITIONS OF ANY KIND, either express or implied.
+// See the License for the specific language governing permissions and
+// limitations under the License.
+
+//go:build !verif
+
+package connect
+
+import (
+	"bytes"
+	"context"
+)
+
+// Without the verif build tag, the simulation seams compile to nothing.
+
+func verifYield(context.Context, string) {}
+
+func verifBufGet(*bufferPool) *bytes.Buffer { return nil }
+
+func verifBufRelease(*bufferPool, *bytes.Buffer) {}
+
+func verifBufPut(*bufferPool, *bytes.Buffer) bool { return false }
+
+func verifPoolGet(*compressionPool, int) any { return nil }
+
+func verifPoolPut(*compressionPool, int, any) bool { return false }
